@@ -31,9 +31,8 @@ fn check_tiling(contig: &[u8], k: usize, splitters: &AHashSet<u64>, segs: &[Segm
     let mut zero_tails = 0u64;
     for (i, s) in segs.iter().enumerate() {
         if i == 0 {
-            if s.front_kmer != MISSING_KMER {
-                return Err("first: first segment has a front k-mer".into());
-            }
+            // (whether the first segment of a multi-segment contig carries a front k-mer, and the
+            // last one a back k-mer, is not part of the property: not judged)
             rebuilt.extend_from_slice(&s.data);
         } else {
             if s.data.len() < k {
@@ -69,9 +68,6 @@ fn check_tiling(contig: &[u8], k: usize, splitters: &AHashSet<u64>, segs: &[Segm
         } else {
             if end != contig.len() {
                 return Err("last: last segment does not end at the last base".into());
-            }
-            if s.back_kmer != MISSING_KMER {
-                return Err("last: last segment has a back k-mer".into());
             }
         }
     }
